@@ -6,6 +6,7 @@ package rtpconn
 //      witness (the goroutine dump shows galene frames blocked in sync.Mutex.Lock, twice, 2 s apart).
 
 import (
+	"context"
 	"fmt"
 	"net"
 	"os"
@@ -18,6 +19,7 @@ import (
 	"testing"
 	"time"
 
+	"github.com/pion/webrtc/v4"
 	"pgregory.net/rapid"
 
 	"github.com/jech/galene/conn"
@@ -74,6 +76,29 @@ func (c *fakeClient) Kick(id string, user *string, message string) error {
 	return nil
 }
 
+var c13Offer string
+var c13OfferOnce sync.Once
+
+// c13WhipOffer is a pion-made SDP offer (audio, send-only) for WHIP's NewConnection.
+func c13WhipOffer() string {
+	c13OfferOnce.Do(func() {
+		pc, err := webrtc.NewPeerConnection(webrtc.Configuration{})
+		if err != nil {
+			panic("VERIF-HARNESS-ERROR: " + err.Error())
+		}
+		defer pc.Close()
+		if _, err := pc.AddTransceiverFromKind(webrtc.RTPCodecTypeAudio, webrtc.RTPTransceiverInit{Direction: webrtc.RTPTransceiverDirectionSendonly}); err != nil {
+			panic("VERIF-HARNESS-ERROR: " + err.Error())
+		}
+		offer, err := pc.CreateOffer(nil)
+		if err != nil {
+			panic("VERIF-HARNESS-ERROR: " + err.Error())
+		}
+		c13Offer = offer.SDP
+	})
+	return c13Offer
+}
+
 var c13n int
 
 func c13Group(desc map[string]any) string {
@@ -82,6 +107,15 @@ func c13Group(desc map[string]any) string {
 	name := fmt.Sprintf("c13-%d-%d", c13n, time.Now().UnixNano()%100000)
 	writeGroupFile(name, desc)
 	return name
+}
+
+// deadlockWitness ends the process on a structural deadlock witness.  Goroutines blocked for ever on a group's lock
+// poison everything that walks all groups (statistics, reloads) and with it every later case, so shrinking is
+// pointless; the driver turns the line into a violation whose replay is the plan in the message.
+func deadlockWitness(rec *verifkit.Rec, msg string) {
+	rec.Flush()
+	fmt.Fprintf(os.Stderr, "\nVERIF-DEADLOCK-WITNESS %s\n", msg)
+	os.Exit(3)
 }
 
 var blockedRE = regexp.MustCompile(`(?s)goroutine \d+ \[sync\.Mutex\.Lock[^\]]*\]:\n(.*?)\n\n`)
@@ -172,6 +206,8 @@ func TestVerif_C13_FreeRunning(t *testing.T) {
 					ops = append(ops, rapid.SampledFrom([]string{"getclients", "range", "status", "stats", "gethistory", "getclient", "locked"}).Draw(t, "op"))
 				case "admin":
 					ops = append(ops, rapid.SampledFrom([]string{"lock", "unlock", "reload", "addhistory", "addhistory", "addhistory", "clearhistory", "clearhistory-id", "clearhistory-user", "updatedata"}).Draw(t, "op"))
+				case "whip":
+					ops = append(ops, rapid.SampledFrom([]string{"join", "leave", "join", "offer", "offer", "yield"}).Draw(t, "op"))
 				default:
 					ops = append(ops, rapid.SampledFrom([]string{"join", "leave", "join", "leave", "yield"}).Draw(t, "op"))
 				}
@@ -191,6 +227,7 @@ func TestVerif_C13_FreeRunning(t *testing.T) {
 		}
 		var failure atomic.Value
 		var wg sync.WaitGroup
+		offerSDP := c13WhipOffer()
 		joined := make([]atomic.Bool, nworkers)
 		members := make([]group.Client, nworkers)
 		var mmu sync.Mutex
@@ -290,6 +327,12 @@ func TestVerif_C13_FreeRunning(t *testing.T) {
 									members[w] = c
 									mmu.Unlock()
 								}
+							}
+						case "offer":
+							if whip != nil {
+								ctx, cancel := context.WithTimeout(context.Background(), 10*time.Second)
+								whip.NewConnection(ctx, []byte(offerSDP))
+								cancel()
 							}
 						case "leave":
 							if whip != nil {
@@ -412,7 +455,11 @@ func TestVerif_C13_FreeRunning(t *testing.T) {
 		go func() { wg.Wait(); close(done) }()
 		if r := awaitAll(done); r != "" {
 			if strings.HasPrefix(r, "deadlock") {
-				t.Fatalf("C13: %s", r)
+				var canon []string
+				for _, p := range plans {
+					canon = append(canon, p.kind+":"+strings.Join(p.ops, ","))
+				}
+				deadlockWitness(c13fRec, fmt.Sprintf("property=C13 free-running plan [%s] group options %v/%v/%v: %s", strings.Join(canon, " | "), desc["autolock"], desc["autokick"], desc["max-clients"], r))
 			}
 			c13fRec.Class("inconclusive_timeout")
 			return
@@ -520,7 +567,8 @@ func TestVerif_C13_CoordinatedSchedules(t *testing.T) {
 		}
 		pauseIn := rapid.SampledFrom([]string{"Permissions", "Permissions", "Joined", "PushClient"}).Draw(t, "pauseIn")
 		first := rapid.SampledFrom([]string{"join", "join", "leave-op", "lock", "reload"}).Draw(t, "pausedOperation")
-		second := rapid.SampledFrom([]string{"whip-close", "whip-close", "join", "leave", "kick-whip", "stats", "getclients"}).Draw(t, "meanwhile")
+		second := rapid.SampledFrom([]string{"whip-close", "whip-close", "whip-offer", "whip-offer", "whip-offer-then-close", "join", "leave", "kick-whip", "stats", "getclients"}).Draw(t, "meanwhile")
+		offerSDP := c13WhipOffer()
 		entered := make(chan struct{}, 1)
 		release := make(chan struct{})
 		var once sync.Once
@@ -578,6 +626,16 @@ func TestVerif_C13_CoordinatedSchedules(t *testing.T) {
 			switch second {
 			case "whip-close":
 				W.Close()
+			case "whip-offer":
+				// the WHIP session's media offer arrives (HTTP POST handler): creates the up connection
+				ctx, cancel := context.WithTimeout(context.Background(), 10*time.Second)
+				W.NewConnection(ctx, []byte(offerSDP))
+				cancel()
+			case "whip-offer-then-close":
+				ctx, cancel := context.WithTimeout(context.Background(), 10*time.Second)
+				W.NewConnection(ctx, []byte(offerSDP))
+				cancel()
+				W.Close()
 			case "join":
 				j := &fakeClient{id: "J2"}
 				mustJoin(j, &anyone)
@@ -598,7 +656,7 @@ func TestVerif_C13_CoordinatedSchedules(t *testing.T) {
 		go func() { wg.Wait(); close(done) }()
 		r := awaitAll(done)
 		if strings.HasPrefix(r, "deadlock") {
-			t.Fatalf("C13: %q paused in F.%s while %q ran (group %s): %s", first, pauseIn, second, opt, r)
+			deadlockWitness(c13dRec, fmt.Sprintf("property=C13 %q paused in F.%s while %q ran (group %s): %s", first, pauseIn, second, opt, r))
 		}
 		if r == "inconclusive" {
 			c13dRec.Class("inconclusive_timeout")
